@@ -84,7 +84,7 @@ def gen_case(rnd, spec):
                                                {"built": "<opaque>"}, ["<opaque>", {"guard": "<lock>"}]])
     unknown = []
     if rnd.random() < 0.3:
-        unknown = rnd.sample(["typo", "pipelin", "extra", "Logging"], rnd.randint(1, 2))
+        unknown = rnd.sample(["typo", "pipelin", "extra", "Logging", "__anchors__", "__", "____", "__type__", ".hidden", "_private", "logging ", "", "0"], rnd.randint(1, 2))
         for u in unknown:
             config[u] = {"x": 1}
     if rnd.random() < 0.3:
